@@ -11,6 +11,8 @@ R05.2 "does not depend on how the stream was cut into update calls" (bookkeeping
 R05.3 every unit that implements the SHA-1 / SHA-256 round function for the multi-hash (block functions of all
       families, the final single-buffer hash over the 16 segment digests) carries the complete standard round
       constants, tables in standard order; the init / final-hash units carry the standard initial hash values.
+R05.6 "shorter than 2^32 bytes": the byte-to-bit conversion feeding every length-field store is a 64-bit operation.
+R05.7 block loops keep their accumulators (see C10 R10.8) in the 8 assembly block functions.
 R05.4 "hashed ... with standard SHA-1 / SHA-256" (padding half): every store of the message bit length into a
       padding buffer that the C source asks for (tail functions, the final single-buffer hash) survives in the
       object built with the real flags - some instruction attributed to that source line writes memory.
@@ -18,6 +20,7 @@ R05.4 "hashed ... with standard SHA-1 / SHA-256" (padding half): every store of 
 import re
 
 import build
+import cands
 import c01
 import ir
 import mhrules
@@ -33,10 +36,15 @@ def run(chk):
     lib = x86.Library(units)
     chk.extra["build"] = stats
     mods = ir.load_modules([u for u in units if u["kind"] == "c" and u["src"].split("/")[0] in DIRS])
+    nbind = cands.binding_rule(chk, "R05.5", lib, ['_mh_sha1_update', '_mh_sha1_finalize', '_mh_sha1_block', '_mh_sha256_'])
+    chk.floor("implementations checked for binding ownership", nbind, 1)
     nb = mhrules.block_alignment(chk, "R05.1", lib, mods, "_mh_sha1_block") + mhrules.block_alignment(chk, "R05.1", lib, mods, "_mh_sha256_block")
     chk.floor("assembly block functions", nb, 8)
     nu = mhrules.total_length_rule(chk, "R05.2", mods, r"^_mh_sha(1|256)_update_\w+$")
     chk.floor("update functions", nu, 10)
+    mhrules.bit_length_width(chk, "R05.6", mods)
+    nls = mhrules.loop_state_rule(chk, "R05.7", lib, r"^_mh_sha(1|256)_block_\w+$")
+    chk.floor("block functions with loops checked for accumulator discipline", nls, 8)
     ns = mhrules.length_store_survives(chk, "R05.4", lib, mods)
     chk.floor("bit-length stores checked for survival", ns, 6)
     nunits, nctx = c01.constant_rules(chk, lib, DIRS, "R05.3", "R05.3", {"SHA1": 6, "SHA256": 6}, {"SHA1": 2, "SHA256": 2}, ctx_pat=re.compile(r"^(mh_sha1|mh_sha256|sha1_for_mh_sha1|sha256_for_mh_sha256)\.o$"))
